@@ -102,6 +102,31 @@ def run(run):
                     run.sample(dict(files=sorted(files), orders=len(perms), entities=len(union_nodes), links=sum(union_edges.values())))
             finally:
                 shutil.rmtree(root, ignore_errors=True)
+        # ---- a stalled worker: one file is held back for a long time (slow disk, contended machine); nothing may
+        #      be lost and the result must equal the undisturbed scan
+        for stall_ms in ([12000] if quick else [3000, 12000, 31000]):
+            root = C.scratch("c07s")
+            try:
+                files = make_project(rng, root, 7)
+                paths = [os.path.join(root, rel) for rel in sorted(files)]
+                r0 = h.call(op="scan-order", dir=root, graph="g", order=[], timeout=240)
+                victim = rng.choice(paths)
+                r1 = h.call(op="scan-order", dir=root, graph="g", order=[], delays={victim: stall_ms}, timeout=400)
+                run.count(("stall", stall_ms))
+                stats["stalled_scans"] += 1
+                if r0.get("outcome") != "ok" or r1.get("outcome") != "ok":
+                    run.violation("C07:scan-" + str(r1.get("outcome")), "scan with a worker stalled for %d ms ends with %s" % (stall_ms, r1.get("outcome")), dict(files=files, stall_ms=stall_ms))
+                    if "died" in (r0.get("outcome"), r1.get("outcome")) or "hang" in (r0.get("outcome"), r1.get("outcome")):
+                        h = C.Harness()
+                    continue
+                a, b = canon(r0["nodes"], r0["edges"]), canon(r1["nodes"], r1["edges"])
+                if a != b:
+                    lost = {json.loads(v)["file"] for i, v in a[0].items() if i not in b[0]}
+                    run.violation("C07:stall-changes-result", "holding one file back for %.0f s changes the scan result: %d of %d entities are missing (files %s)" %
+                                  (stall_ms / 1000, len(a[0]) - len(b[0]), len(a[0]), sorted(os.path.basename(x) for x in lost)[:5]),
+                                  dict(files=files, stalled=os.path.relpath(victim, root), stall_ms=stall_ms))
+            finally:
+                shutil.rmtree(root, ignore_errors=True)
         # ---- file counts around the pool size, GOMAXPROCS, repetition
         counts = [0, 1, 4, 5, 6, 11, 40] if quick else [0, 1, 2, 4, 5, 6, 9, 10, 11, 25, 50, 101, 200]
         for nf in counts:
